@@ -338,6 +338,11 @@ def unpinned_helper_calls(prog: "Program", fi: "FunctionInfo", node: ast.AST):
         cands = [q for q in prog.funcs if q.split(".")[-1] == name]
         if cands and not any(q in known for q in cands):
             out.append(name)
+        # a class of the package that is not a pinned one and has behaviour of its own (__post_init__, properties, methods):
+        # constructing it computes things out of the caller's sight
+        for cq, c in prog.classes.items():
+            if c.name == name and c.methods and not any(k.startswith(cq + ".") for k in known):
+                out.append(name)
     return out
 
 
